@@ -6,6 +6,7 @@ package main
 
 import (
 	"encoding/binary"
+	stderrors "errors"
 	"io"
 
 	"github.com/golang/protobuf/proto"
@@ -142,14 +143,16 @@ func pbErrClass(err error) string {
 		return "nil"
 	}
 	c := errors.Cause(err)
+	// "whose cause is": the innermost error, through Cause() chains (pkg/errors style) or Unwrap() chains (%w)
+	is := func(target error) bool { return c == target || stderrors.Is(err, target) }
 	switch {
-	case c == io.EOF:
+	case is(io.EOF):
 		return "EOF"
-	case c == io.ErrUnexpectedEOF:
+	case is(io.ErrUnexpectedEOF):
 		return "UnexpectedEOF"
-	case c == errInj:
+	case is(errInj):
 		return "inj"
-	case c == pbcmpl.ErrInvalidHeaderSize:
+	case is(pbcmpl.ErrInvalidHeaderSize):
 		return "InvalidHeaderSize"
 	}
 	s := c.Error()
@@ -267,6 +270,14 @@ func execPB(in In, em *Emitter) {
 // ---- generation
 
 var pbBodyLens = []int{0, 1, 2, 31, 32, 33, 100, 300}
+// versions related to each other: a version, the same followed by NUL and more bytes, by other bytes, a prefix
+// of it (a decoder that remembers the previous version must not confuse them)
+var pbVerFamilies = [][]string{
+	{"1.0.0", "1.0.0\x00b", "1.0.0\x00\x00c", "1.0.0x", "1.0", "1.0.0\x00b"},
+	{"1", "1\x001", "1\x00\x00\x00\x00\x00\x00\x00\x00\x00\x00\x00\x00\x00\x002", "12", ""},
+	{"abcdefghijklmno", "abcdefghijklmnop", "abcdefghijklmn\x00p", "abcdefg"},
+}
+
 var pbVers = []string{"", "1", "1.0.0", "0.1.12-rc", "123456789012345", "1234567890123456", "1.2.3\x00rc1", "\x001", "v\xff\x80"}
 
 func pbChunks(g *Gen) []int64 {
@@ -311,6 +322,28 @@ func genC06(g *Gen) {
 	r := g.R
 	genBigFrames(g, g.N(4, 24))
 	kinds := []string{"raw", "raw", "pb", "pb", "pbs"}
+	// consecutive frames whose versions are related (see pbVerFamilies), each read with Unmarshal or ReadHeader
+	for c := 0; c < g.N(60, 2000); c++ {
+		fam := pbVerFamilies[r.Intn(len(pbVerFamilies))]
+		var ops []J
+		n := 2 + r.Intn(4)
+		kinds2 := make([]string, n)
+		for i := 0; i < n; i++ {
+			kinds2[i] = []string{"raw", "pb"}[r.Intn(2)]
+			mk := pbMarshalOp(g, kinds2[i], r.Intn(5))
+			mk["hasver"] = true
+			mk["ver"] = strJ(fam[r.Intn(len(fam))])
+			ops = append(ops, mk)
+		}
+		for i := 0; i < n; i++ {
+			ops = append(ops, J{"k": "Unmarshal", "avail": -1, "fault": "EOF", "chunks": pbChunks(g), "kind": kinds2[i]})
+		}
+		ops = append(ops, J{"k": "Rewind"})
+		for i := 0; i < n; i++ { // and the headers alone, skipping over the bodies is not possible: read whole frames again
+			ops = append(ops, J{"k": "Unmarshal", "avail": -1, "fault": "EOF", "chunks": []int64{}, "kind": kinds2[i]})
+		}
+		g.Case("pb", J{"ops": withEWD(g, ops)})
+	}
 	for c := 0; c < g.N(700, 25000); c++ {
 		nf := 1 + r.Intn(4)
 		var ops []J
